@@ -13,6 +13,23 @@ def sh(cmd, cwd=None, env=None, timeout=3600):
     return p.returncode, p.stdout
 
 def main():
+    # form 2: mutant_eval.py --seeded <pid>-<k> [extra check ids]: re-run a kept change from /verif/seeded in a
+    # scratch worktree of /repo's HEAD (created under /tmp and removed afterwards)
+    if sys.argv[1] == '--seeded':
+        name = sys.argv[2]; pid, k = name.split('-')
+        wt = Path('/tmp/wt_scratch_' + name)
+        sh('git -C /repo worktree remove --force %s' % wt)
+        rc, out = sh('git -C /repo worktree add -q %s HEAD' % wt)
+        (wt / 'mutants' / k).mkdir(parents=True, exist_ok=True)
+        for f in ('patch.diff', 'demo.rs', 'meta.json', 'cargo_dev_dep.diff'):
+            if (Path('/verif/seeded') / name / f).exists():
+                shutil.copy(Path('/verif/seeded') / name / f, wt / 'mutants' / k / f)
+        sys.argv = [sys.argv[0], str(wt), k, pid] + sys.argv[3:]
+        try:
+            main()
+        finally:
+            sh('git -C /repo worktree remove --force %s' % wt)
+        return
     wt, k, pid = Path(sys.argv[1]), sys.argv[2], sys.argv[3]
     checks = [pid] + sys.argv[4:]
     md = wt / 'mutants' / k
